@@ -837,9 +837,14 @@ def Array(
             _array = []
             while True:
                 try:
-                    _array.append(cls.element_type.decode(stream))
+                    _pos = stream.tell()
+                    _value = cls.element_type.decode(stream)
                 except BufferEmptyError:
                     break
+                if stream.tell() == _pos:
+                    # the element consumed nothing, the end of the data would never be reached
+                    break
+                _array.append(_value)
             return _array
 
         @classmethod
